@@ -72,7 +72,9 @@ pub fn replay(args: &[String]) {
                 supplied.push((l0.clone(), data));
             }
         }
+        let icon = v["icon"].as_bool().unwrap_or(false);
         let mut def = json!({"title": title, "format": mime, "claim_generator_info": [{"name": gen_name, "version": "1.2.3"}], "assertions": assertions});
+        if icon { def["claim_generator_info"][0]["icon"] = json!({"format": "image/jpeg", "identifier": "icon.jpg"}); }
         if v["claim_version"].as_u64() == Some(1) { def["claim_version"] = json!(1); }
         if v["hash_alg"] != "sha256" { def["hash_alg"] = v["hash_alg"].clone(); }
         let overlay = if v["compressed"].as_bool().unwrap() { json!({"core": {"prefer_compress_manifests": true}}) } else { Value::Null };
@@ -87,6 +89,7 @@ pub fn replay(args: &[String]) {
                 let idata = if ing == "signed" { sign_bytes(ctx(&Value::Null), &idef, "image/png", &fixture("libpng-test.png"), "es256")? } else { fixture("libpng-test.png") };
                 b.add_ingredient_from_stream(json!({"title": "ing-title", "relationship": "componentOf"}).to_string(), "image/png", &mut Cursor::new(idata))?;
             }
+            if icon { b.add_resource("icon.jpg", Cursor::new(fixture("thumbnail.jpg")))?; }
             if mode == "sidecar" || mode == "remote" { b.set_no_embed(true); }
             if mode == "remote" || mode == "embed+remote" { b.set_remote_url("https://manifests.example/c03.c2pa"); }
             let s = signer(&alg);
